@@ -5,6 +5,15 @@ import logging
 import os
 import random
 import sys
+import tempfile
+
+# Scratch directories (persistence files, fake devices): a memory file system when there is one. The library fsyncs every
+# save and an fsync on the disk of this sandbox takes 30-70 ms, which is most of the run time of the persistence checks;
+# directory semantics (rename, unlink, link) are the same. VF_TMP overrides.
+DISK_TMP = tempfile.gettempdir()          # for the few jobs that want saves to take as long as they do on a disk
+_scratch = os.environ.get("VF_TMP") or ("/dev/shm" if os.path.isdir("/dev/shm") and os.access("/dev/shm", os.W_OK | os.X_OK) else None)
+if _scratch:
+    tempfile.tempdir = _scratch
 
 VERIF = os.path.dirname(os.path.dirname(os.path.abspath(__file__)))
 REPO = os.path.abspath(os.environ.get("VERIF_REPO", "/repo"))
